@@ -676,7 +676,7 @@ def write_replay(prop, obligation, payload):
 
 
 def write_evidence(prop, tier, seed, obligations, wall, checker_cmds, trusted, assumptions, functions, violations,
-                   extra=None):
+                   extra=None, partial=False):
     # obligations matched by a committed known finding are reported separately (they are neither discharged
     # nor counted among the obligations this run claims)
     counted = [o for o in obligations if o.kind == "complete" and o.engine in ("verus", "kani") and o.status != "known"]
@@ -709,7 +709,9 @@ def write_evidence(prop, tier, seed, obligations, wall, checker_cmds, trusted, a
         cov.update(extra)
     ev = {"property_id": prop, "tier": tier, "seed": seed, "level": "proof", "coverage": cov,
           "assumptions": assumptions, "wall_s": round(wall, 2), "violations": violations}
-    os.makedirs(os.path.join(VERIF, "evidence"), exist_ok=True)
-    with open(os.path.join(VERIF, "evidence", prop + ".json"), "w") as f:
+    # debugging runs restricted with --only never overwrite the real evidence file
+    edir = os.path.join(VERIF, "logs" if partial else "evidence")
+    os.makedirs(edir, exist_ok=True)
+    with open(os.path.join(edir, prop + (".partial-evidence.json" if partial else ".json")), "w") as f:
         json.dump(ev, f, indent=1)
     return ev
